@@ -330,7 +330,9 @@ func (q *Queue) MaybeRemoveMissing(ids []uint32) []uint32 {
 
 	var removed []uint32
 	for _, item := range q.items {
-		if _, ok := set[item.opts.RepoID]; ok {
+		// Use the key the item is tracked under. item.opts is still the zero
+		// value for items that were only ever seen by SetIndexed.
+		if _, ok := set[item.repoID]; ok {
 			continue
 		}
 
@@ -340,9 +342,9 @@ func (q *Queue) MaybeRemoveMissing(ids []uint32) []uint32 {
 
 		item.indexState = ""
 
-		delete(q.items, item.opts.RepoID)
+		delete(q.items, item.repoID)
 
-		removed = append(removed, item.opts.RepoID)
+		removed = append(removed, item.repoID)
 	}
 
 	metricQueueLen.Set(float64(len(q.pq)))
